@@ -566,6 +566,8 @@ def present(a, form):
         return np.array(a.T, order="C").T
     if form == "int":
         return a.astype(np.int64) if np.array_equal(a, np.round(a)) else a
+    if form == "int32":
+        return a.astype(np.int32) if np.array_equal(a, np.round(a)) else a
     if form == "float32":
         return a.astype(np.float32) if np.array_equal(a.astype(np.float32).astype(float), a) else a
     if form == "readonly":
@@ -641,6 +643,42 @@ def gen_target(rng, src, d):
 
 
 EXTREMES = ["near-isotropic", "huge", "tiny"]
+DTYPE_CLASSES = ["Homogeneous", "Affine", "Similarity"]          # the classes that keep the caller's array as it comes
+DTYPE_FORMS = ["int", "int32", "float32"]
+
+
+def gen_hom_dtype(rng, cls, d, form):
+    """A member of a class that stores the caller's matrix as it comes, given as an INTEGER-dtype (int64 / int32) or
+    single-precision array whose inverse has fractional entries (|det| >= 2): the inverse has to come out in floating
+    point, whatever dtype the parameters were handed over in."""
+    r = {"kind": "hom", "cls": cls, "d": d, "history": None, "array": form, "dtype_case": True}
+    if cls == "Homogeneous":
+        while True:
+            m = int_matrix(rng, d + 1, -3, 3, 2, 24)
+            if m[d][d] != 0:
+                break
+        r["h"] = [[float(v) for v in row] for row in m]
+    elif cls == "Affine":
+        L = int_matrix(rng, d, -3, 3, 2, 12)
+        r["h"] = [[float(L[i][j]) for j in range(d)] + [float(rng.randint(-9, 9))] for i in range(d)] + [[0.0] * d + [1.0]]
+    else:
+        while True:          # n2·R is an integer matrix for a rational rotation R = (integer matrix) / n2: scale n2 >= 2
+            if d == 2:
+                a, b = rng.randint(-4, 4), rng.randint(-4, 4)
+                n2, M = a * a + b * b, [[a, -b], [b, a]]
+            else:
+                q = [rng.randint(-2, 2) for _ in range(4)]
+                n2 = sum(x * x for x in q)
+                w, x, y, z = q
+                M = [[w * w + x * x - y * y - z * z, 2 * (x * y - z * w), 2 * (x * z + y * w)],
+                     [2 * (x * y + z * w), w * w - x * x + y * y - z * z, 2 * (y * z - x * w)],
+                     [2 * (x * z - y * w), 2 * (y * z + x * w), w * w - x * x - y * y + z * z]]
+            if 2 <= n2 <= 12:
+                break
+        r["h"] = [[float(M[i][j]) for j in range(d)] + [float(rng.randint(-9, 9))] for i in range(d)] + [[0.0] * d + [1.0]]
+    r["xs"] = gen_points(rng, d, 4)
+    r["x2"] = gen_points(rng, d, 3)
+    return r
 
 
 def gen_hom_extreme(rng, cls, d, kind):
@@ -1211,6 +1249,8 @@ def case_hom(ctx, r, lines, pend, cid):
     ctx.count("history:hom:" + str(r.get("history")))
     if r.get("extreme"):
         ctx.count("parameters:%s:%s" % (r["extreme"], cls))
+    if r.get("dtype_case"):
+        ctx.count("parameters:dtype %s with fractional inverse:%s/%dD" % (np.asarray(t.h_matrix).dtype, cls, d))
     if r.get("history"):
         ctx.count("history:hom:previous-life-%s" % ("applied" if LAST_BUILD.get("history_applied") else
                                                      "not-applicable (class has no public mutator): fresh object"))
@@ -2243,6 +2283,9 @@ def sig(r):
 def gen_case(rng, kind, k):
     if kind == "hom":
         # cycle deterministically through class × dimension so every run covers all 24 combinations
+        if (k // 24) % 3 == 1 and FAMILY[k % 12] in DTYPE_CLASSES:
+            # every third round: integer-dtype / single-precision parameters with a fractional inverse
+            return gen_hom_dtype(rng, FAMILY[k % 12], 2 + (k // 12) % 2, DTYPE_FORMS[(k // 72) % 3])
         if (k // 24) % 3 == 2:        # every third round through class × dimension: parameters at a tolerance's edge
             return gen_hom_extreme(rng, FAMILY[k % 12], 2 + (k // 12) % 2, EXTREMES[(k // 72) % 3])
         return gen_hom(rng, FAMILY[k % 12], 2 + (k // 12) % 2)
